@@ -4,7 +4,9 @@ import RxnModel.Model.Align
 Driver section for C02 (barrier alignment). Header: `M C02 <senders> <batchMaxSize>`.
 Ops (one output line each):
   `send <sr> ev <keyhex> <p> <t>` | `send <sr> wm <ts>` | `send <sr> bar <id>`  → `passed` | `parked` | `busy`
+  `send <sr> done` (SourceComplete) likewise
   `go <sr>`   → `noop` | `ok <observations of the consumer's event function>`
+  `failnext`  → `armed` (the next ack to the job fails)      `redeploy` → `redeployed:<senders turned away>`
   `tick` / `stale` → `none` | `H(...)`
   `state`     → `ck=<id>:<missing>|- slots=<per sender p|k|->`   (mechanism detail)
 The step function is `Rxn.Align.step`, the one the theorems of `Props/C02.lean` are about.
@@ -31,16 +33,21 @@ def showObs (keys : List Bytes) : Obs → Option String
   | .aligned _ p => some (if p then "passed" else "parked")
   | .busy _ => some "busy"
   | .proc _ _ => none
-  | .handler es given =>
+  | .handler es w given =>
     let ks := (given.map (·.1)).foldl (fun acc k => insSorted k acc) []
     let g := ks.map fun k => (k, ((given.find? (·.1 = k)).map (·.2)).getD [])
-    some s!"H({joinWith "," (es.map showEntry)}|{showKV g})"
+    some s!"H({w}|{joinWith "," (es.map showEntry)}|{showKV g})"
+  | .fired _ _ => none
   | .reg _ id => some s!"reg:{id}"
   | .reject _ got have_ => some s!"reject:{got}:{have_}"
   | .snap id kv timers =>
     some s!"S({id}|{showKV (keys.map fun k => (k, kv k))}|{joinWith "," (timers.map fun t => s!"{t.1}:{toHex t.2}")})"
   | .ack id => some s!"ack:{id}"
   | .released srs => some s!"rel:{joinWith "." (srs.map toString)}"
+  | .ackfail id => some s!"ackfail:{id}"
+  | .completed _ => some "completed"
+  | .stopped => some "stopped"
+  | .redeployed srs => some s!"redeployed:{joinWith "." (srs.map toString)}"
 
 def showAll (keys : List Bytes) (obs : List Obs) : List String := obs.filterMap (showObs keys)
 
@@ -65,18 +72,29 @@ def step' (st : DSt) : List String → DSt × String
     let st := { st with keys := insSorted key st.keys }
     if natOr sr < st.s.k then
       let (st, o) := doAct st (.align (natOr sr) (.ev key (natOr p) (natOr t)))
-      (st, joinWith " " o)
+      (st, if o.isEmpty then "gone" else joinWith " " o)
     else (st, "bad-op")
   | ["send", sr, "wm", ts] =>
     if natOr sr < st.s.k then
       let (st, o) := doAct st (.align (natOr sr) (.wm (natOr ts)))
-      (st, joinWith " " o)
+      (st, if o.isEmpty then "gone" else joinWith " " o)
     else (st, "bad-op")
   | ["send", sr, "bar", id] =>
     if natOr sr < st.s.k then
       let (st, o) := doAct st (.align (natOr sr) (.bar (natOr id)))
-      (st, joinWith " " o)
+      (st, if o.isEmpty then "gone" else joinWith " " o)
     else (st, "bad-op")
+  | ["send", sr, "done"] =>
+    if natOr sr < st.s.k then
+      let (st, o) := doAct st (.align (natOr sr) .done)
+      (st, if o.isEmpty then "gone" else joinWith " " o)
+    else (st, "bad-op")
+  | ["failnext"] =>
+    let (st, _) := doAct st .armFail
+    (st, if st.s.stopped then "gone" else "armed")
+  | ["redeploy"] =>
+    let (st, o) := doAct st .redeploy
+    (st, if o.isEmpty then "gone" else joinWith " " o)
   | ["go", sr] =>
     let r := step st.s (.go (natOr sr))
     if r.2.isEmpty then (st, "noop")
@@ -87,7 +105,7 @@ def step' (st : DSt) : List String → DSt × String
   | ["stale"] =>
     let (st, o) := doAct st .stale
     (st, if o.isEmpty then "none" else joinWith " " o)
-  | ["state"] => (st, showState st.s)
+  | ["state"] => (st, if st.s.stopped then "gone" else showState st.s)
   | _ => (st, "bad-op")
 
 def handle (lines : Array String) (i : Nat) (out : Array String) : Nat × Array String :=
